@@ -156,6 +156,12 @@ class DiagAnalysis:
             if v is not None:
                 return "ok" if v == 0 else "fail"
         if kind == "optional":
+            x = e
+            for _ in range(3):
+                if x is not None and x.get("k") in ("CXXConstructExpr", "CXXFunctionalCastExpr") and len(x.get("c", [])) == 1:
+                    x = strip_all(x["c"][0])
+            if x is not None and x.get("k") == "DeclRefExpr" and x.get("n") == "nullopt":
+                return "fail"
             if e.get("k") == "DeclRefExpr" and e.get("n") == "nullopt":
                 return "fail"
             t = e.get("ct") or e.get("t") or ""
